@@ -682,7 +682,7 @@ Section CacheProps.
       + apply Permutation_trans with (stouch keqb k (clock s) l).
         * unfold stouch. apply Permutation_map. exact Hp.
         * apply stouch_perm; assumption.
-      + rewrite map_app, (sdelete_remove k l Hnd), Hmap. reflexivity.
+      + rewrite map_app. f_equal. rewrite <- Hmap. apply sdelete_remove. exact Hnd.
       + rewrite map_app. simpl. apply sorted_snoc.
         * unfold sdelete. apply filter_sorted. exact Hs.
         * unfold sdelete. apply filter_map_forall. exact Hf.
@@ -698,4 +698,434 @@ Section CacheProps.
       exists l. unfold wit. simpl. repeat split; assumption.
   Qed.
 
+  Lemma refines_set : forall g c s k v, inv (g, c) -> abs (g, c) s ->
+    abs (fst (step (g, c) (OSet k v))) (fst (sstep keqb s (OSet k v))) /\
+    snd (step (g, c) (OSet k v)) = snd (sstep keqb s (OSet k v)).
+  Proof.
+    intros g c s k v Hinv Habs. pose proof (abs_find _ _ k Habs) as Hfind.
+    destruct Habs as [Hlim [Hh [Hm [l [Hp [Hmap [Hs [Hf Hnd]]]]]]]]. simpl in Hlim, Hh, Hm.
+    simpl. split; [|reflexivity]. unfold cset, sset. rewrite drop_stale_eq.
+    cbv zeta. cbn [entries maxsz hits misses cep]. rewrite Hfind.
+    destruct (mlookup k (live (g, c))) as [v0|] eqn:Hl.
+    - assert (Hlen : length (massign k v (live (g, c))) = length (live (g, c)))
+        by exact (assign_found_length k v v0 _ Hl).
+      assert (Hex : limit_exceeded (maxsz c) (length (massign k v (live (g, c)))) = false).
+      { rewrite Hlen. unfold limit_exceeded. destruct (maxsz c) as [[|p]|] eqn:Hmx; try reflexivity.
+        apply Nat.ltb_ge. exact (live_bound g c p Hinv Hmx). }
+      rewrite Hex. unfold abs. cbn [fst snd limit nhits nmisses maxsz hits misses]. rewrite live_mk.
+      split; [exact Hlim|]. split; [exact Hh|]. split; [exact Hm|].
+      exists (sassign keqb k v l). unfold wit. cbn [items clock].
+      split; [|split; [|split; [|split]]].
+      + unfold sassign. apply Permutation_map. exact Hp.
+      + rewrite <- Hmap. apply sassign_assign with v0; [exact Hnd|].
+        rewrite sfind_lookup, Hmap. exact Hl.
+      + rewrite sassign_stamps. exact Hs.
+      + rewrite sassign_stamps. exact Hf.
+      + rewrite sassign_keys. exact Hnd.
+    - rewrite (assign_new k v _ Hl).
+      assert (Hnk : ~ In k (map ikey l)).
+      { apply sfind_none_notin. rewrite sfind_lookup, Hmap. exact Hl. }
+      assert (Hp' : Permutation ((k, v, clock s) :: items s) (l ++ [(k, v, clock s)])).
+      { apply Permutation_trans with ((k, v, clock s) :: l).
+        - apply perm_skip. exact Hp.
+        - apply Permutation_cons_append. }
+      assert (Hmap' : map fst (l ++ [(k, v, clock s)]) = live (g, c) ++ [(k, v)]).
+      { rewrite map_app. f_equal. exact Hmap. }
+      assert (Hs' : StronglySorted lt (map istamp (l ++ [(k, v, clock s)]))).
+      { rewrite map_app. simpl. apply sorted_snoc; assumption. }
+      assert (Hf' : Forall (fun t => t < S (clock s)) (map istamp (l ++ [(k, v, clock s)]))).
+      { rewrite map_app. apply Forall_app. split.
+        - apply Forall_impl with (P := fun t => t < clock s); [intros a Ha; lia | exact Hf].
+        - simpl. constructor; [lia | constructor]. }
+      assert (Hnd' : NoDup (map ikey (l ++ [(k, v, clock s)]))).
+      { rewrite map_app. simpl. apply nodup_snoc; assumption. }
+      assert (Hlen' : length ((k, v, clock s) :: items s) = length (live (g, c) ++ [(k, v)])).
+      { rewrite (Permutation_length Hp'), <- Hmap', map_length. reflexivity. }
+      rewrite over_exceeded, Hlim, Hlen'.
+      destruct (limit_exceeded (maxsz c) (length (live (g, c) ++ [(k, v)]))) eqn:Hex.
+      + destruct l as [|a r].
+        * exfalso. simpl in Hmap.
+          unfold limit_exceeded in Hex. destruct (maxsz c) as [[|p]|]; try discriminate.
+          apply Nat.ltb_lt in Hex. rewrite <- Hmap in Hex. simpl in Hex. lia.
+        * unfold abs. cbn [fst snd limit nhits nmisses maxsz hits misses]. rewrite live_mk.
+          split; [reflexivity|]. split; [exact Hh|]. split; [exact Hm|].
+          exists (r ++ [(k, v, clock s)]). unfold wit. cbn [items clock].
+          simpl in Hs', Hf', Hnd'.
+          split; [|split; [|split; [|split]]].
+          -- apply Permutation_trans with (evict ((a :: r) ++ [(k, v, clock s)])).
+             ++ apply evict_perm. exact Hp'.
+             ++ simpl app. rewrite evict_sorted; [apply Permutation_refl|]. simpl. exact Hs'.
+          -- rewrite <- Hmap'. reflexivity.
+          -- inversion Hs' as [|x0 xs0 H1 H2]; subst. exact H1.
+          -- inversion Hf' as [|x0 xs0 H1 H2]; subst. exact H2.
+          -- inversion Hnd' as [|x0 xs0 H1 H2]; subst. exact H2.
+      + unfold abs. cbn [fst snd limit nhits nmisses maxsz hits misses]. rewrite live_mk.
+        split; [reflexivity|]. split; [exact Hh|]. split; [exact Hm|].
+        exists (l ++ [(k, v, clock s)]). unfold wit. cbn [items clock].
+        repeat split; assumption.
+  Qed.
+
+  Lemma refines_del : forall g c s k, inv (g, c) -> abs (g, c) s ->
+    abs (fst (step (g, c) (ODel k))) (fst (sstep keqb s (ODel k))) /\
+    snd (step (g, c) (ODel k)) = snd (sstep keqb s (ODel k)).
+  Proof.
+    intros g c s k Hinv Habs. pose proof (abs_find _ _ k Habs) as Hfind.
+    destruct Habs as [Hlim [Hh [Hm [l [Hp [Hmap [Hs [Hf Hnd]]]]]]]]. simpl in Hlim, Hh, Hm.
+    simpl. unfold cdel, sdel. rewrite drop_stale_eq. simpl. rewrite Hfind.
+    destruct (mlookup k (live (g, c))) as [v0|] eqn:Hl; simpl.
+    - split; [|reflexivity]. unfold abs. simpl. rewrite live_mk.
+      split; [exact Hlim|]. split; [exact Hh|]. split; [exact Hm|].
+      exists (sdelete keqb k l). unfold wit. cbn [items clock].
+      split; [|split; [|split; [|split]]].
+      + unfold sdelete. apply Permutation_filter. exact Hp.
+      + rewrite <- Hmap. apply sdelete_remove. exact Hnd.
+      + unfold sdelete. apply filter_sorted. exact Hs.
+      + unfold sdelete. apply filter_map_forall. exact Hf.
+      + unfold sdelete. apply filter_keys_nodup. exact Hnd.
+    - split; [|reflexivity]. unfold abs. simpl. rewrite live_mk.
+      split; [exact Hlim|]. split; [exact Hh|]. split; [exact Hm|].
+      exists l. unfold wit. repeat split; assumption.
+  Qed.
+
+  Lemma refines_len : forall g c s, inv (g, c) -> abs (g, c) s ->
+    abs (fst (step (g, c) OLen)) (fst (sstep keqb s OLen)) /\
+    snd (step (g, c) OLen) = snd (sstep keqb s OLen).
+  Proof.
+    intros g c s Hinv Habs.
+    destruct Habs as [Hlim [Hh [Hm [l [Hp [Hmap [Hs [Hf Hnd]]]]]]]]. simpl in Hlim, Hh, Hm.
+    simpl. unfold clen. rewrite drop_stale_eq. simpl. split.
+    - unfold abs. simpl. rewrite live_mk.
+      split; [exact Hlim|]. split; [exact Hh|]. split; [exact Hm|].
+      exists l. unfold wit. repeat split; assumption.
+    - f_equal. rewrite (Permutation_length Hp), <- Hmap, map_length. reflexivity.
+  Qed.
+
+  Lemma wit_nil : forall s : sstate, items s = [] -> wit [] s [].
+  Proof.
+    intros s Hs. unfold wit. rewrite Hs. repeat split; constructor.
+  Qed.
+
+  Lemma refines_clear : forall g c s, inv (g, c) -> abs (g, c) s ->
+    abs (fst (step (g, c) OClear)) (fst (sstep keqb s OClear)) /\
+    snd (step (g, c) OClear) = snd (sstep keqb s OClear).
+  Proof.
+    intros g c s Hinv Habs.
+    destruct Habs as [Hlim [Hh [Hm _]]]. simpl in Hlim, Hh, Hm.
+    simpl. split; [|reflexivity]. unfold abs. simpl.
+    split; [exact Hlim|]. split; [reflexivity|]. split; [reflexivity|].
+    exists []. destruct (clear_all c) as [_ [_ [_ [Hlive _]]]]. rewrite (Hlive g).
+    apply wit_nil. reflexivity.
+  Qed.
+
+  Lemma refines_invalidate : forall g c s, inv (g, c) -> abs (g, c) s ->
+    abs (fst (step (g, c) OInvalidate)) (fst (sstep keqb s OInvalidate)) /\
+    snd (step (g, c) OInvalidate) = snd (sstep keqb s OInvalidate).
+  Proof.
+    intros g c s [Hce _] Habs. simpl in Hce.
+    destruct Habs as [Hlim [Hh [Hm _]]]. simpl in Hlim, Hh, Hm.
+    simpl. split; [|reflexivity]. unfold abs. simpl.
+    split; [exact Hlim|]. split; [exact Hh|]. split; [exact Hm|].
+    exists []. assert (Hlive : live (S g, c) = []).
+    { unfold live. simpl. destruct (Nat.eqb (cep c) (S g)) eqn:E; [|reflexivity].
+      apply Nat.eqb_eq in E. lia. }
+    rewrite Hlive. apply wit_nil. reflexivity.
+  Qed.
+
+  (* 2. forward simulation: every model step yields the spec's output and a related state *)
+  Theorem refines : forall st s o, inv st -> abs st s ->
+    inv (fst (step st o)) /\
+    abs (fst (step st o)) (fst (sstep keqb s o)) /\
+    snd (step st o) = snd (sstep keqb s o).
+  Proof.
+    intros [g c] s o Hinv Habs. split; [apply inv_step; exact Hinv|].
+    destruct o as [k|k v|k| | |].
+    - apply refines_get; assumption.
+    - apply refines_set; assumption.
+    - apply refines_del; assumption.
+    - apply refines_len; assumption.
+    - apply refines_clear; assumption.
+    - apply refines_invalidate; assumption.
+  Qed.
+
+  Fixpoint strace (s : sstate) (ops : list op) : list out :=
+    match ops with
+    | [] => []
+    | o :: r => snd (sstep keqb s o) :: strace (fst (sstep keqb s o)) r
+    end.
+
+  Lemma refines_run_from : forall ops st s, inv st -> abs st s ->
+    inv (run st ops) /\ abs (run st ops) (srun keqb s ops) /\ trace st ops = strace s ops.
+  Proof.
+    induction ops as [|o r IH]; intros st s Hinv Habs; simpl.
+    - split; [exact Hinv|]. split; [exact Habs | reflexivity].
+    - destruct (refines st s o Hinv Habs) as [Hinv' [Habs' Hout]].
+      destruct (IH _ _ Hinv' Habs') as [H1 [H2 H3]].
+      split; [exact H1|]. split; [exact H2|]. rewrite Hout, H3. reflexivity.
+  Qed.
+
+  (* the initial states are related, hence all reachable states and all outputs are *)
+  Theorem refines_run : forall dflt arg g0 ops,
+    let st0 := init dflt arg g0 in
+    let s0 := snew (maxsz (snd st0)) in
+    inv st0 /\ abs st0 s0 /\
+    inv (run st0 ops) /\ abs (run st0 ops) (srun keqb s0 ops) /\
+    trace st0 ops = strace s0 ops.
+  Proof.
+    intros dflt arg g0 ops st0 s0.
+    split; [apply inv_init|]. split; [apply abs_init|].
+    apply refines_run_from; [apply inv_init | apply abs_init].
+  Qed.
+
+  (* ------------------------------------------------------------------ *)
+  (* lookups return the latest value stored under the key               *)
+  (* ------------------------------------------------------------------ *)
+  Lemma not_exceeded_found : forall g c k v v0, inv (g, c) ->
+    mlookup k (live (g, c)) = Some v0 ->
+    limit_exceeded (maxsz c) (length (massign k v (live (g, c)))) = false.
+  Proof.
+    intros g c k v v0 Hinv Hl. rewrite (assign_found_length k v v0 _ Hl).
+    unfold limit_exceeded. destruct (maxsz c) as [[|p]|] eqn:Hmx; try reflexivity.
+    apply Nat.ltb_ge. exact (live_bound g c p Hinv Hmx).
+  Qed.
+
+  Lemma assign_keys : forall k v v0 (E : list (K * V)),
+    mlookup k E = Some v0 -> map fst (massign k v E) = map fst E.
+  Proof.
+    intros k v v0 E. induction E as [|[k' v'] r IH]; simpl; intro H; [discriminate|].
+    destruct (keqb k k'); simpl; [reflexivity | rewrite (IH H); reflexivity].
+  Qed.
+
+  Lemma assign_keys_nodup : forall k v (E : list (K * V)),
+    NoDup (map fst E) -> NoDup (map fst (massign k v E)).
+  Proof.
+    intros k v E Hnd. destruct (mlookup k E) as [v0|] eqn:Hl.
+    - rewrite (assign_keys k v v0 E Hl). exact Hnd.
+    - rewrite (assign_new k v E Hl), map_app. simpl. apply nodup_snoc; [exact Hnd|].
+      apply lookup_notin. exact Hl.
+  Qed.
+
+  Lemma lookup_remove_same : forall k (E : list (K * V)),
+    NoDup (map fst E) -> mlookup k (mremove k E) = None.
+  Proof.
+    intros k E. induction E as [|[k' v'] r IH]; simpl; intro Hnd; [reflexivity|].
+    inversion Hnd as [|x xs Hn Hd]; subst.
+    destruct (keqb k k') eqn:Ek; simpl.
+    - apply keqb_spec in Ek. subst k'. apply lookup_notin. exact Hn.
+    - rewrite Ek. exact (IH Hd).
+  Qed.
+
+  Lemma set_same : forall g c k v, inv (g, c) ->
+    mlookup k (entries (mset g k v c)) = Some v.
+  Proof.
+    intros g c k v Hinv. unfold cset. rewrite drop_stale_eq. cbv zeta.
+    cbn [entries maxsz hits misses cep].
+    destruct (mlookup k (live (g, c))) as [v0|] eqn:Hl.
+    - rewrite (not_exceeded_found g c k v v0 Hinv Hl). apply lookup_assign_same.
+    - rewrite (assign_new k v _ Hl).
+      remember (live (g, c)) as E eqn:HE.
+      destruct (limit_exceeded (maxsz c) (length (E ++ [(k, v)]))) eqn:Hex.
+      + destruct E as [|[k1 v1] r].
+        * exfalso. unfold limit_exceeded in Hex.
+          destruct (maxsz c) as [[|p]|]; try discriminate;
+            apply Nat.ltb_lt in Hex; simpl in Hex; lia.
+        * simpl. apply lookup_app_new. simpl in Hl.
+          destruct (keqb k k1); [discriminate | exact Hl].
+      + apply lookup_app_new. exact Hl.
+  Qed.
+
+  Lemma set_other : forall g c k v k', NoDup (map fst (live (g, c))) -> k' <> k ->
+    mlookup k' (entries (mset g k v c)) = mlookup k' (live (g, c)) \/
+    mlookup k' (entries (mset g k v c)) = None.
+  Proof.
+    intros g c k v k' Hnd Hne. unfold cset. rewrite drop_stale_eq. cbv zeta.
+    cbn [entries maxsz hits misses cep].
+    pose proof (lookup_assign_other k k' v (live (g, c)) Hne) as Hother.
+    pose proof (assign_keys_nodup k v _ Hnd) as Hnd'.
+    remember (massign k v (live (g, c))) as L eqn:HL.
+    destruct (limit_exceeded (maxsz c) (length L)); [|left; exact Hother].
+    destruct L as [|[k1 v1] r]; simpl; [right; reflexivity|].
+    simpl in Hother, Hnd'. inversion Hnd' as [|x xs Hn Hd]; subst x xs.
+    destruct (keqb k' k1) eqn:Ek.
+    - right. apply keqb_spec in Ek. subst k1. apply lookup_notin. exact Hn.
+    - left. exact Hother.
+  Qed.
+
+  Lemma get_preserves : forall g c k k', NoDup (map fst (live (g, c))) ->
+    mlookup k' (entries (snd (mget g k c))) = mlookup k' (live (g, c)).
+  Proof.
+    intros g c k k' Hnd. unfold cget. rewrite drop_stale_eq. cbv zeta.
+    cbn [entries maxsz hits misses cep].
+    destruct (mlookup k (live (g, c))) as [v0|] eqn:Hl; cbn [snd entries]; [|reflexivity].
+    destruct (keqb k' k) eqn:Ek.
+    - apply keqb_spec in Ek. subst k'. rewrite Hl. apply lookup_app_new.
+      apply lookup_remove_same. exact Hnd.
+    - apply keqb_false in Ek. rewrite (lookup_app_other k k' v0 _ Ek).
+      apply lookup_remove_other. exact Ek.
+  Qed.
+
+  Lemma del_lookup : forall g c k k', NoDup (map fst (live (g, c))) ->
+    mlookup k' (live (g, snd (mdel g k c))) =
+    if keqb k' k then None else mlookup k' (live (g, c)).
+  Proof.
+    intros g c k k' Hnd. unfold cdel. rewrite drop_stale_eq. cbv zeta.
+    cbn [entries maxsz hits misses cep].
+    destruct (mlookup k (live (g, c))) as [v0|] eqn:Hl; cbn [snd]; rewrite live_mk.
+    - destruct (keqb k' k) eqn:Ek.
+      + apply keqb_spec in Ek. subst k'. apply lookup_remove_same. exact Hnd.
+      + apply keqb_false in Ek. apply lookup_remove_other. exact Ek.
+    - destruct (keqb k' k) eqn:Ek; [|reflexivity].
+      apply keqb_spec in Ek. subst k'. exact Hl.
+  Qed.
+
+  (* 3. a lookup returns the value most recently stored under that key or a miss *)
+  Theorem get_latest :
+    (* from the initial state: the result of a lookup is the spec map's value at k *)
+    (forall dflt arg g0 ops k,
+       let st0 := init dflt arg g0 in
+       let s := srun keqb (snew (maxsz (snd st0))) ops in
+       snd (step (run st0 ops) (OGet k)) = RGet (sfind keqb k (items s)) /\
+       NoDup (map fst (live (run st0 ops))) /\ inv (run st0 ops)) /\
+    (* in any related pair of states: model result = visible entries = spec map *)
+    (forall st s k, inv st -> abs st s ->
+       snd (step st (OGet k)) = RGet (mlookup k (live st)) /\
+       mlookup k (live st) = sfind keqb k (items s)) /\
+    (* directly on the model: storing k v makes k map to v (also at limit Some 1) ... *)
+    (forall g c k v, inv (g, c) -> mlookup k (entries (mset g k v c)) = Some v) /\
+    (* ... any other key keeps its value or is evicted, never gets another value ... *)
+    (forall g c k v k', NoDup (map fst (live (g, c))) -> k' <> k ->
+       mlookup k' (entries (mset g k v c)) = mlookup k' (live (g, c)) \/
+       mlookup k' (entries (mset g k v c)) = None) /\
+    (* ... a lookup changes no binding, and a delete removes exactly the binding of k *)
+    (forall g c k k', NoDup (map fst (live (g, c))) ->
+       mlookup k' (entries (snd (mget g k c))) = mlookup k' (live (g, c))) /\
+    (forall g c k k', NoDup (map fst (live (g, c))) ->
+       mlookup k' (live (g, snd (mdel g k c))) =
+       if keqb k' k then None else mlookup k' (live (g, c))).
+  Proof.
+    split; [|split; [|split; [|split; [|split]]]].
+    - intros dflt arg g0 ops k st0 s.
+      destruct (refines_run dflt arg g0 ops) as [_ [_ [Hinv [Habs _]]]].
+      fold st0 in Hinv, Habs. fold s in Habs.
+      destruct (refines _ _ (OGet k) Hinv Habs) as [_ [_ Hout]].
+      split; [|split; [exact (abs_nodup _ _ Habs) | exact Hinv]].
+      rewrite Hout. simpl. unfold sget. destruct (sfind keqb k (items s)); reflexivity.
+    - intros [g c] s k Hinv Habs. split; [|symmetry; apply abs_find; exact Habs].
+      simpl. unfold cget. rewrite drop_stale_eq. cbv zeta. cbn [entries].
+      destruct (mlookup k (live (g, c))); reflexivity.
+    - exact set_same.
+    - exact set_other.
+    - exact get_preserves.
+    - exact del_lookup.
+  Qed.
+
+  (* ------------------------------------------------------------------ *)
+  (* 4. eviction removes the least recently used entry                  *)
+  (* ------------------------------------------------------------------ *)
+  Theorem evict_lru : forall g c s k v k0 v0 r n,
+    inv (g, c) -> abs (g, c) s -> maxsz c = Some n -> 1 <= n ->
+    live (g, c) = (k0, v0) :: r -> length ((k0, v0) :: r) = n ->
+    mlookup k ((k0, v0) :: r) = None ->
+    (* model: the head of entries goes, the new key is appended *)
+    entries (mset g k v c) = r ++ [(k, v)] /\
+    (* spec: that head key carries the strictly minimal last-use stamp, and the spec's
+       new item set is the old one minus that key plus the new item *)
+    exists t0,
+      In (k0, v0, t0) (items s) /\
+      (forall j, In j (items s) -> j <> (k0, v0, t0) -> t0 < istamp j) /\
+      Permutation (items (fst (sstep keqb s (OSet k v))))
+                  ((k, v, clock s) :: sdelete keqb k0 (items s)).
+  Proof.
+    intros g c s k v k0 v0 r n Hinv Habs Hmx Hn HE Hlen Hl.
+    pose proof (abs_find _ _ k Habs) as Hfind. rewrite HE, Hl in Hfind.
+    destruct Habs as [Hlim [Hh [Hm [l [Hp [Hmap [Hs [Hf Hnd]]]]]]]]. simpl in Hlim, Hh, Hm.
+    rewrite HE in Hmap.
+    assert (Hll : length l = n).
+    { rewrite <- Hlen, <- Hmap. symmetry. apply map_length. }
+    destruct n as [|p]; [lia|].
+    split.
+    - unfold cset. rewrite drop_stale_eq. cbv zeta. cbn [entries maxsz hits misses cep].
+      rewrite HE, (assign_new k v _ Hl), Hmx.
+      assert (Hex : limit_exceeded (Some (S p)) (length (((k0, v0) :: r) ++ [(k, v)])) = true).
+      { unfold limit_exceeded. apply Nat.ltb_lt. rewrite app_length, Hlen. simpl. lia. }
+      rewrite Hex. reflexivity.
+    - destruct l as [|[[k0' v0'] t0] rl]; [discriminate Hmap|].
+      simpl in Hmap. injection Hmap as Hk Hv Hr. subst k0' v0'.
+      simpl in Hs, Hf, Hnd.
+      inversion Hs as [|x xs Hs1 Hs2]; subst x xs.
+      inversion Hnd as [|x xs Hn1 Hn2]; subst x xs.
+      exists t0. split; [|split].
+      + apply (Permutation_in _ (Permutation_sym Hp)). left. reflexivity.
+      + intros j Hj Hne. apply (Permutation_in _ Hp) in Hj. destruct Hj as [Hj|Hj].
+        * exfalso. apply Hne. symmetry. exact Hj.
+        * rewrite Forall_forall in Hs2. apply Hs2. apply in_map. exact Hj.
+      + simpl. unfold sset. rewrite Hfind. cbv zeta. cbn [items].
+        assert (HPL : length (items s) = length ((k0, v0, t0) :: rl)).
+        { apply Permutation_length. exact Hp. }
+        match goal with |- context [over ?a ?b] => destruct (over a b) eqn:Hov end.
+        2:{ exfalso. rewrite Hlim, Hmx in Hov. unfold over in Hov.
+            apply andb_false_iff in Hov. destruct Hov as [Hov|Hov].
+            - apply Nat.leb_gt in Hov. lia.
+            - apply Nat.ltb_ge in Hov.
+              assert (Hov' : S (length (items s)) <= S p) by exact Hov.
+              assert (HPL' : length (items s) = S (length rl)) by exact HPL.
+              assert (Hll' : S (length rl) = S p) by exact Hll.
+              lia. }
+        assert (Hp' : Permutation ((k, v, clock s) :: items s)
+                                  (((k0, v0, t0) :: rl) ++ [(k, v, clock s)])).
+        { apply Permutation_trans with ((k, v, clock s) :: (k0, v0, t0) :: rl).
+          - apply perm_skip. exact Hp.
+          - apply Permutation_cons_append. }
+        assert (Hs' : StronglySorted lt (map istamp (((k0, v0, t0) :: rl) ++ [(k, v, clock s)]))).
+        { rewrite map_app. simpl. apply (sorted_snoc (t0 :: map istamp rl)).
+          - constructor; assumption.
+          - exact Hf. }
+        apply Permutation_trans with (rl ++ [(k, v, clock s)]).
+        * apply Permutation_trans with (evict (((k0, v0, t0) :: rl) ++ [(k, v, clock s)])).
+          -- apply evict_perm. exact Hp'.
+          -- simpl app. rewrite evict_sorted; [apply Permutation_refl|]. exact Hs'.
+        * apply Permutation_trans with ((k, v, clock s) :: rl).
+          -- apply Permutation_sym. apply Permutation_cons_append.
+          -- apply perm_skip.
+             apply Permutation_trans with (sdelete keqb k0 ((k0, v0, t0) :: rl)).
+             ++ simpl. change (ikey (k0, v0, t0)) with k0. rewrite keqb_refl. simpl.
+                rewrite sdelete_notin; [apply Permutation_refl | exact Hn1].
+             ++ unfold sdelete. apply Permutation_filter. apply Permutation_sym. exact Hp.
+  Qed.
+
 End CacheProps.
+
+(* ---------------------------------------------------------------------- *)
+(* Non-vacuity: K = V = nat, limit 2.  set 1, set 2, get 1, set 3 evicts   *)
+(* key 2 (not 1: it was used more recently); 3 hits and 1 miss.            *)
+(* ---------------------------------------------------------------------- *)
+Definition ex_ops : list (op nat nat) :=
+  [OSet 1 10; OSet 2 20; OGet 1; OSet 3 30; OGet 2; OGet 1; OGet 3; OLen].
+
+Example lru_example :
+  let st0 := init nat nat None (Some 2) 0 in
+  let c := snd (run nat nat Nat.eqb st0 ex_ops) in
+  trace nat nat Nat.eqb st0 ex_ops =
+    [RUnit; RUnit; RGet (Some 10); RUnit; RGet None; RGet (Some 10); RGet (Some 30); RLen 2] /\
+  strace nat nat Nat.eqb (snew (Some 2)) ex_ops = trace nat nat Nat.eqb st0 ex_ops /\
+  entries nat nat (snd (run nat nat Nat.eqb st0 [OSet 1 10; OSet 2 20; OGet 1; OSet 3 30]))
+    = [(1, 10); (3, 30)] /\
+  entries nat nat c = [(1, 10); (3, 30)] /\ hits nat nat c = 3 /\ misses nat nat c = 1.
+Proof. vm_compute. repeat split. Qed.
+
+(* an invalidation hides the entries but keeps the counters; a clear zeroes them *)
+Example epoch_example :
+  let st0 := init nat nat (Some 2) None 7 in
+  trace nat nat Nat.eqb st0 [OSet 1 10; OGet 1; OInvalidate; OLen; OGet 1; OClear; OGet 1] =
+    [RUnit; RGet (Some 10); RUnit; RLen 0; RGet None; RUnit; RGet None] /\
+  let c := snd (run nat nat Nat.eqb st0 [OSet 1 10; OGet 1; OInvalidate; OLen; OGet 1]) in
+  hits nat nat c = 1 /\ misses nat nat c = 1.
+Proof. vm_compute. repeat split. Qed.
+
+Print Assumptions size_le.
+Print Assumptions refines.
+Print Assumptions refines_run.
+Print Assumptions get_latest.
+Print Assumptions evict_lru.
+Print Assumptions counters.
+Print Assumptions clear_all.
+Print Assumptions evict_spec.
